@@ -49,7 +49,7 @@ def fs_events(p):
             elif n in ("os.remove", "os.unlink", "shutil.move", "os.replace", "open",
                        "os.truncate"):
                 out.append(("fsother", e, loops))
-        elif k == "script":
+        elif k in ("script", "sql_dynamic"):
             out.append(("script", e, loops))
         elif k == "sql" and e["stmt"].mutating:
             out.append(("sqlmut", e, loops))
@@ -169,6 +169,27 @@ def run(ctx):
                     ctx.ob("R19.ro", "%s: rejected file left unchanged" % en[3:], not muts,
                            p.events[-1], "" if not muts else "a rejected file was modified "
                            "first (%s)" % muts)
+    # a PRAGMA that changes persistent properties (journal_mode=WAL, page_size,
+    # user_version, ...) rewrites the file header before the version test can
+    # reject the file
+    NO_FILE_EFFECT = ("foreign_keys", "foreign_key_check", "synchronous", "cache_size",
+                      "temp_store", "busy_timeout", "query_only", "mmap_size",
+                      "integrity_check", "quick_check", "table_info", "index_list",
+                      "database_list", "compile_options")
+    npr = 0
+    for en in model.DB_ENTRIES:
+        for p in model.paths(en):
+            for e, _ in all_events(p, ("sql",)):
+                if e["stmt"].kind == "pragma":
+                    npr += 1
+                    nm = e["stmt"].extra["name"]
+                    ok = nm in NO_FILE_EFFECT
+                    ctx.ob("R19.ro", "%s: PRAGMA %s does not write the file" % (e["func"], nm),
+                           ok, e, "" if ok else "PRAGMA %s=%s changes a persistent property "
+                           "of the database file as soon as it is opened, i.e. before a "
+                           "foreign or newer-version file is rejected" % (
+                               nm, e["stmt"].extra["value"]))
+    ctx.require("R19.ro", npr, 2, "PRAGMA statements on open paths")
     ctx.require("R19.new", nnew, 2, "creation paths")
     ctx.require("R19.open", nopen, 4, "connect(dbfile) sites on paths")
     # R19.wrap
